@@ -197,6 +197,20 @@ CLAIMED = {
              "(multi-atom end groups truncated; to_mol dropped charges) were repaired by fix: commits. RDKit sanitisation: oracle only.",
         technique="Lean 4 executable state machine replayed against the code (+ small theorems) + residue/tree oracle",
         ref="7/C18"),
+    "C19": dict(
+        text="Lean model chainPoints / chainProb of mol_prob.py restricted to the property's class (start fragments and their probabilities from get_starting_tokens, the "
+             "(value, previous) pair accumulated per block, including the start end group's mass that the code adds to element 0). Theorems: C19_block_factor (without start "
+             "mass the factor is F(n u) - F((n-1) u)), C19_sums_to_one / C19_start_mass_sum (telescoping via C11_telescope: the lengths add up to F(N u) - F(0), with a start "
+             "mass m to F(m + N u) - F(m)), C19_start_mass_counterexample (uniform(0,500), m = 72: 1 - 72/500), C19_one_unit_targets / C19_one_unit_factor_gap (one unit is "
+             "generated for every target below u; the reported factor misses F(0)), C19_start_probability, C19_prefix_start. The check builds molecules of the class "
+             "(prefix / end-group start x 1-3 blocks x symmetric and asymmetric units x end groups x all families), has the REAL generator produce every chain length carrying "
+             "1 - 1e-9 of the law (forced targets; generated mass verified), and compares get_ensemble_prob with the model's points evaluated on closed-form CDFs "
+             "(correspondence) and with the generation probability (oracle); sums over all lengths; random atom renumberings; another generator seed; foreign molecules -> 0.",
+        note="KNOWN-FINDINGs end-group-start-mass-counted (a pinned test value depends on it) and mass-at-or-below-zero-not-counted. Two defects of the pinned tree were "
+             "repaired by fix: commits (symmetric fragments depended on the atom order; an uncapped unit at the chain end was accepted). The search over substructure "
+             "matches (RDKit) is not modelled: the model is the closed form the search must produce on this class, tied by the correspondence. Float CDFs: closed forms of distref.",
+        technique="Lean 4 closed-form model + telescoping proofs + exhaustive-over-lengths differential check against the real generator and closed-form CDFs",
+        ref="7/C19"),
 }
 
 NOT_YET = {}
